@@ -617,6 +617,24 @@ impl IndexTable {
 	pub(crate) fn verif_has_file(&self) -> bool {
 		self.map.read().is_some()
 	}
+
+	/// Both page-search implementations on one page: ((entry, position) fast, (entry, position) scalar).
+	#[cfg(pdb_verif)]
+	pub(crate) fn verif_find(
+		index_bits: u8,
+		key_prefix: u64,
+		start: usize,
+		chunk: &[u8; CHUNK_LEN],
+	) -> ((u64, usize), (u64, usize)) {
+		let table = IndexTable::create_new(std::path::Path::new(""), TableId::new(0, index_bits));
+		let chunk = Chunk(*chunk);
+		#[cfg(target_arch = "x86_64")]
+		let fast = table.find_entry_sse2(key_prefix, start, &chunk);
+		#[cfg(not(target_arch = "x86_64"))]
+		let fast = table.find_entry(key_prefix, start, &chunk);
+		let base = table.find_entry_base(key_prefix, start, &chunk);
+		((fast.0.as_u64(), fast.1), (base.0.as_u64(), base.1))
+	}
 }
 
 #[cfg(test)]
